@@ -20,9 +20,12 @@ Section Tidy.
   Variable n : Z.
 
   (* what an honest timeout vote reports when nothing above block n-1 is voted or certified *)
-  Definition tidy_report (m : timeout) : Prop :=
-    (forall c, thv m = Some c -> hnum (cprop c) < n) /\
+  (* the reported votes are for blocks below vb (vb = n: nothing voted above block n-1;
+     vb = n + 1: block n may have been voted) *)
+  Definition tidy_report_b (vb : Z) (m : timeout) : Prop :=
+    (forall c, thv m = Some c -> hnum (cprop c) < vb) /\
     ((n = p_first P /\ thq m = None) \/ exists q, thq m = Some q /\ hnum (cprop (qmsg q)) = n - 1).
+  Definition tidy_report (m : timeout) : Prop := tidy_report_b n m.
 
   Lemma implied_tidy s tq :
     preach P s -> tqc_verify (p_g P) (p_e P) C tq = Ok tt -> kt hon (g_soup s) tq ->
@@ -123,6 +126,95 @@ Section Tidy.
     - inversion Hr0. auto.
   Qed.
 
+  (* when block n may have been voted (but nothing above it), the implied block is still number
+     n: the new block n or the forced re-proposal of a voted block n *)
+  Lemma implied_tidy_le s tq :
+    preach P s -> tqc_verify (p_g P) (p_e P) C tq = Ok tt -> kt hon (g_soup s) tq ->
+    (forall q, gq (cfg 0) hon (g_soup s) q -> hnum (cprop (qmsg q)) < n) ->
+    (forall h m, hon h = true -> In {| m_key := h; m_sig_ok := true; m_msg := MTimeout m |} (g_soup s) ->
+       tview m = tqview tq -> tidy_report_b (n + 1) m) ->
+    p_first P <= n ->
+    forall n' oh, get_implied_block (E := unit) true C (p_first P) (JTimeout tq) = Ok (n', oh) ->
+    n' = n.
+  Proof.
+    intros Hr Hv Hkt HT0 HTM Hfn n' oh Hi.
+    destruct (ProtocolRefinesInv.preach_inv P HP s Hr) as [a G].
+    pose proof (committee_ok_W P HP) as Hok. pose proof (ProtocolRefinesInv.gi_reach _ _ _ G) as Ha.
+    pose proof (ProtocolRefinesInv.gt_valid P (g_soup s) (g_plog s) a tq
+                  (ProtocolRefinesInv.gi_commit _ _ _ G) (ProtocolRefinesInv.gi_timeout _ _ _ G)
+                  (ProtocolRefinesInv.gi_votes _ _ _ G) (ProtocolRefinesInv.gi_tmos _ _ _ G) Hv Hkt) as Hval.
+    assert (Hjv : justification_verify (p_g P) (p_e P) C (JTimeout tq) = Ok tt) by (apply justification_verify_iff; exact Hv).
+    pose proof (implied_abs P HP (JTimeout tq) n' oh Hjv Hi) as Himp. cbn [abs_just is_implied] in Himp.
+    destruct Himp as (hv & hqc & Hhv & Hhq & Hr0).
+    destruct (tqc_verify_parts P tq Hv) as (Hen & _). rewrite Forall_forall in Hen.
+    destruct Hkt as [Hka Hkm].
+    assert (Hq_lt : forall en q, In en (tqmap tq) -> thq (fst en) = Some q -> hnum (cprop (qmsg q)) < n).
+    { intros en q Hin Hq. apply HT0. split.
+      - destruct (Hen en Hin) as (_ & _ & _ & Htv). apply timeout_verify_iff in Htv. destruct Htv as (_ & _ & Htv). auto.
+      - exact (Hkm en Hin q Hq). }
+    assert (Hhon : forall en i, In en (tqmap tq) -> nth_error (snd en) i = Some true -> honest W (abyz P) i ->
+              tidy_report_b (n + 1) (fst en)).
+    { intros en i Hin Hb Hh. pose proof (tsigner_sig P tq en i Hv Hin Hb) as Hs.
+      apply (HTM (key_of P i) (fst en) (honest_key P i Hh) (Hka _ _ Hs (honest_key P i Hh))).
+      apply (Hen en Hin). }
+    destruct Hval as (V1 & V2 & V3 & V4 & V5).
+    destruct (quorum_has_honest W (abyz P) Hok _ V1 V2 V3) as (i0 & Hi0 & Hh0).
+    apply in_map_iff in Hi0. destruct Hi0 as ([i0' r0] & Hf0 & Hin0). cbn [fst] in Hf0. subst i0'.
+    cbn [abs_tqc at_entries] in Hin0. apply in_abs_entries in Hin0. destruct Hin0 as (en0 & Hen0 & Hb0 & ->).
+    pose proof (Hhon en0 i0 Hen0 Hb0 Hh0) as [_ Htq0].
+    assert (Hfresh : match hqc with Some c => bnum (aq_block c) + 1 | None => p_first P end = n).
+    { destruct hqc as [c|]; cbn [is_high_qc] in Hhq.
+      - destruct Hhq as [(i & r & Hin & Hrq) Hmax].
+        cbn [abs_tqc at_entries] in Hin. apply in_abs_entries in Hin. destruct Hin as (en & Hin & Hb & ->).
+        cbn [abs_report ar_hq] in Hrq. destruct (thq (fst en)) as [q|] eqn:Eq; [|discriminate]. cbn [option_map] in Hrq.
+        inversion Hrq; subst c. cbn [abs_cqc aq_block abs_hdr bnum].
+        pose proof (Hq_lt en q Hin Eq) as Hlt.
+        destruct Htq0 as [[En0 _]|(q0 & Eq0 & Hn0)].
+        + exfalso.
+          assert (Hvq : valid_cqc W (abyz P) a (abs_cqc q)) by (apply (V5 i (abs_report (fst en))); [cbn [abs_tqc at_entries]; apply in_abs_entries; eauto|cbn [abs_report ar_hq]; rewrite Eq; reflexivity]).
+          destruct (valid_cqc_honest_vote W (abyz P) Hok a _ Hvq) as (i' & cq & _ & _ & Hvin).
+          destruct (invariants_reachable W (abyz P) (p_first P) Hok a Ha) as [L _].
+          pose proof (li_first _ _ _ _ L _ Hvin) as Hf. cbn [v_block abs_cqc aq_block abs_hdr bnum] in Hf. lia.
+        + assert (Hle : vnum (cview (qmsg q0)) <= vnum (cview (qmsg q))).
+          { apply (Hmax i0 (abs_report (fst en0)) (abs_cqc q0)).
+            - cbn [abs_tqc at_entries]. apply in_abs_entries. eauto.
+            - cbn [abs_report ar_hq]. rewrite Eq0. reflexivity. }
+          assert (Hv0 : valid_cqc W (abyz P) a (abs_cqc q0)).
+          { apply (V5 i0 (abs_report (fst en0))); [cbn [abs_tqc at_entries]; apply in_abs_entries; eauto|cbn [abs_report ar_hq]; rewrite Eq0; reflexivity]. }
+          assert (Hvq : valid_cqc W (abyz P) a (abs_cqc q)).
+          { apply (V5 i (abs_report (fst en))); [cbn [abs_tqc at_entries]; apply in_abs_entries; eauto|cbn [abs_report ar_hq]; rewrite Eq; reflexivity]. }
+          destruct (certificates_monotone W (abyz P) (p_first P) Hok a _ _ Ha Hv0 Hvq Hle) as [Hmon _].
+          cbn [abs_cqc aq_block abs_hdr bnum] in Hmon. lia.
+      - destruct Htq0 as [[En0 _]|(q0 & Eq0 & _)]; [lia|]. exfalso.
+        assert (Hnone : ar_hq (abs_report (fst en0)) = None).
+        { apply (Hhq i0). cbn [abs_tqc at_entries]. apply in_abs_entries. eauto. }
+        cbn [abs_report ar_hq] in Hnone. rewrite Eq0 in Hnone. discriminate. }
+    (* the high vote, if any, is for a block not above n and not below the first block *)
+    assert (Hhvn : forall b, hv = Some b -> p_first P <= bnum b <= n).
+    { intros b E. subst hv. destruct Hhv as [Hsub _]. unfold subquorum_block in Hsub.
+      destruct (heavy_has_honest W (abyz P) Hok (reporters (abs_tqc tq) b)) as (i & Hii & Hh).
+      - apply reporters_NoDup. exact V1.
+      - apply reporters_Forall. exact V2.
+      - pose proof (two_f_below_s W (abyz P) Hok) as H2. pose proof (thr_facts W (abyz P) Hok) as (H0 & _). lia.
+      - apply reporters_in in Hii. destruct Hii as (r & u & Hin & Hrv).
+        pose proof (V4 i r Hin Hh) as Htm.
+        destruct (invariants_reachable W (abyz P) (p_first P) Hok a Ha) as [L _].
+        pose proof (li_thv _ _ _ _ L _ Htm) as Hthv. unfold tmo_hv_ok in Hthv. cbn [t_report] in Hthv. rewrite Hrv in Hthv.
+        destruct Hthv as (_ & (cq & Hvin) & _).
+        pose proof (li_first _ _ _ _ L _ Hvin) as Hf. cbn [v_block] in Hf.
+        cbn [abs_tqc at_entries] in Hin. apply in_abs_entries in Hin. destruct Hin as (en & Hin & Hb & ->).
+        cbn [abs_report ar_hv] in Hrv. destruct (thv (fst en)) as [c|] eqn:Ec; [|discriminate]. cbn [abs_hv option_map] in Hrv.
+        destruct (Hhon en i Hin Hb Hh) as [Hc _]. specialize (Hc c Ec).
+        injection Hrv as _ Hbb. subst b. cbn [abs_hdr bnum] in *. lia. }
+    unfold implied_of in Hr0. rewrite Hfresh in Hr0.
+    destruct hv as [b|].
+    - specialize (Hhvn b eq_refl). destruct hqc as [c|].
+      + destruct (bnum (aq_block c) <? bnum b) eqn:El; inversion Hr0; [|reflexivity].
+        apply Z.ltb_lt in El. lia.
+      + inversion Hr0. lia.
+    - inversion Hr0. reflexivity.
+  Qed.
+
   Lemma gq_ge_first s q : preach P s -> gq (cfg 0) hon (g_soup s) q -> p_first P <= hnum (cprop (qmsg q)).
   Proof.
     intros Hr Hq. destruct (ProtocolRefinesInv.preach_inv P HP s Hr) as [a G].
@@ -148,24 +240,29 @@ Section Tidy.
   Qed.
 
   (* the tidy part of a node state *)
-  Definition hv_ok (st : rstate) : Prop := forall c, r_high_vote st = Some c -> hnum (cprop c) < n.
+  Definition hv_ok_b (vb : Z) (st : rstate) : Prop := forall c, r_high_vote st = Some c -> hnum (cprop c) < vb.
+  Definition hv_ok (st : rstate) : Prop := hv_ok_b n st.
   Definition cq_ok (st : rstate) : Prop :=
     (n = p_first P /\ r_high_cqc st = None) \/ exists q, r_high_cqc st = Some q /\ hnum (cprop (qmsg q)) = n - 1.
-  Definition tidy_node (st : rstate) : Prop := hv_ok st /\ cq_ok st.
+  Definition tidy_node_b (vb : Z) (st : rstate) : Prop := hv_ok_b vb st /\ cq_ok st.
+  Definition tidy_node (st : rstate) : Prop := tidy_node_b n st.
 
+  Lemma tidy_node_report_b vb st v : tidy_node_b vb st ->
+    tidy_report_b vb {| tview := v; thv := r_high_vote st; thq := r_high_cqc st |}.
+  Proof. intros [H1 H2]. split; [exact H1|exact H2]. Qed.
   Lemma tidy_node_report st v : tidy_node st ->
     tidy_report {| tview := v; thv := r_high_vote st; thq := r_high_cqc st |}.
-  Proof. intros [H1 H2]. split; [exact H1|exact H2]. Qed.
+  Proof. apply tidy_node_report_b. Qed.
 
   (* kept by a step that does not vote, in a reachable state whose certificates are below n *)
-  Lemma tidy_node_keep s0 st st' :
+  Lemma tidy_node_keep_b vb s0 st st' :
     preach P s0 -> (forall q, gq (cfg 0) hon (g_soup s0) q -> hnum (cprop (qmsg q)) < n) ->
     (forall q, r_high_cqc st = Some q -> gq (cfg 0) hon (g_soup s0) q) ->
     (forall q, r_high_cqc st' = Some q -> gq (cfg 0) hon (g_soup s0) q) ->
     ReplicaMono.st_le st st' -> r_high_vote st' = r_high_vote st ->
-    tidy_node st -> tidy_node st'.
+    tidy_node_b vb st -> tidy_node_b vb st'.
   Proof.
-    intros Hr0 HT0 Hg Hg' (_ & Hle & _) Ehv [H1 H2]. split; [unfold hv_ok; rewrite Ehv; exact H1|].
+    intros Hr0 HT0 Hg Hg' (_ & Hle & _) Ehv [H1 H2]. split; [unfold hv_ok_b; rewrite Ehv; exact H1|].
     destruct H2 as [[En E0]|(q & Eq & Hn)].
     - destruct (r_high_cqc st') as [q'|] eqn:Eq'; [|left; split; [exact En|first [reflexivity|exact Eq']]]. exfalso.
       assert (Hgq' : gq (cfg 0) hon (g_soup s0) q') by (first [apply (Hg' q' eq_refl)|apply (Hg' q' Eq')]).
@@ -176,4 +273,11 @@ Section Tidy.
       pose proof (HT0 q' Hgq').
       pose proof (gq_mono_number s0 q q' Hr0 (Hg q Eq) Hgq' Hle). lia.
   Qed.
+  Lemma tidy_node_keep s0 st st' :
+    preach P s0 -> (forall q, gq (cfg 0) hon (g_soup s0) q -> hnum (cprop (qmsg q)) < n) ->
+    (forall q, r_high_cqc st = Some q -> gq (cfg 0) hon (g_soup s0) q) ->
+    (forall q, r_high_cqc st' = Some q -> gq (cfg 0) hon (g_soup s0) q) ->
+    ReplicaMono.st_le st st' -> r_high_vote st' = r_high_vote st ->
+    tidy_node st -> tidy_node st'.
+  Proof. apply tidy_node_keep_b. Qed.
 End Tidy.
